@@ -364,7 +364,13 @@ func relax(e expectation) expectation {
 	return e
 }
 
-var lenientBool = map[string]bool{"on": true, "off": true, "yes": true, "no": true, "y": true, "n": true}
+// words people (and other parsers: YAML 1.1, the expansion/flag parser) read
+// as booleans; strconv.ParseBool takes only 1 t T TRUE true True 0 f F FALSE false False
+var lenientBool = map[string]bool{"on": true, "off": true, "yes": true, "no": true, "y": true, "n": true,
+	"true": true, "false": true, "t": true, "f": true, "enable": true, "disable": true, "enabled": true, "disabled": true}
+
+// boolWord: a boolean word in any casing, possibly padded with blanks
+func boolWord(s string) bool { return lenientBool[strings.ToLower(strings.TrimSpace(s))] }
 
 // parseIntAny reads s as an integer in strconv's base-0 syntax, signed or unsigned.
 func parseIntAny(s string) (v *big.Int, okInt, okUint bool, rangeErr bool) {
@@ -403,8 +409,10 @@ func expect(s src, t *tkind) expectation {
 		if b, err := strconv.ParseBool(str); err == nil {
 			return expectation{mode: mExact, b: &b}
 		}
-		if lenientBool[strings.ToLower(str)] {
-			return expectation{mode: mUnpinned}
+		if boolWord(str) {
+			// "a string that does not parse is always an error": a STRING setting
+			// is what strconv reads, whatever other word lists exist
+			return errExp("boolean-word-strconv-refuses")
 		}
 		return errExp("unparsable-string")
 	case cInt, cUint:
